@@ -594,7 +594,8 @@ func (c *Corpus) addKeyID(mm *mutationMap) error {
 }
 
 func (c *Corpus) addBlob(ctx context.Context, br blob.Ref, mm *mutationMap) error {
-	if _, dup := c.blobs[br]; dup {
+	_, dup := c.blobs[br]
+	if dup && !mm.resumed {
 		return nil
 	}
 	c.gen++
@@ -610,6 +611,10 @@ func (c *Corpus) addBlob(ctx context.Context, br blob.Ref, mm *mutationMap) erro
 			continue
 		}
 		if !slurpedKeyType[kt] {
+			continue
+		}
+		if dup && kt == "meta" {
+			// merged by the earlier, partial pass
 			continue
 		}
 		if err := corpusMergeFunc[kt](c, []byte(k), []byte(v)); err != nil {
